@@ -96,6 +96,9 @@ def instances(tier, seed):
     max_iter, tol = budgets[(k // 2) % len(budgets)]
     bkind = bound_kinds[(k // 3) % len(bound_kinds)]
     scale = (1.0, 0.1, 10.0)[k % 3]
+    if k % 16 == 4 and not supervised:
+      # data recorded in small units: squared distances -- and therefore legitimate, strictly positive bounds -- of the order of 1e-9
+      scale, bkind = 3e-6, 'quantiles'
     big = (bkind == 'default' and k % 2 == 0)      # enough distinct points for a non-zero 5th percentile of the default bounds
     n_pts = 34 if big else d + 3 + rng.randint(0, 8)
     X = rng.randn(n_pts, d).dot(rng.randn(d, d)) * scale
@@ -242,6 +245,12 @@ def check_instance(ml, inst, stats=None):
           stats['skipped'] = 'prior not strictly positive definite'
         return None                  # the prior is not strictly PD on this input: outside the quantifier
       raise
+  if M0 is not None and inst['prior'] == 'covariance' and pairs is not None and np.ndim(pairs) == 3:
+    # independent of the initialiser: the documented meaning of the option, inverse covariance of the DISTINCT training points
+    pts = np.unique(np.asarray(pairs, dtype=float).reshape(-1, np.shape(pairs)[2]), axis=0)
+    Cp = np.atleast_2d(np.cov(pts, rowvar=False))
+    if np.linalg.cond(Cp) < 1e10:
+      M0 = np.linalg.inv(Cp)
   if err is not None:
     A = fr.get('A')
     if isinstance(A, np.ndarray) and np.all(np.isfinite(A)) and definiteness(A, np.linalg.norm(M0, 2) if M0 is not None else 0.0) == 'unresolved':
@@ -328,11 +337,19 @@ def check_instance(ml, inst, stats=None):
                '(|M (inv(M0)+S) - I| = %.3g, cond(M) = %.3g)' % (e1, e2, cond), **info)
   # ---- prior-fixpoint ----
   u, l = float(est.bounds_[0]), float(est.bounds_[1])
+  if r.get('bounds') is not None:
+    # explicit bounds are the ones of the documented problem (an exact zero is replaced by 1e-9, as documented in the code): the solver
+    # must have used THEM, however small they are
+    gu, gl = (float(b) if float(b) != 0.0 else 1e-9 for b in np.ravel(r['bounds'])[:2])
+    if not (u == gu and l == gl):
+      return bad(inst, 'converged-kkt', 'the solver replaced the given bounds %r by %r: it solves another problem than the one it was given'
+                 % ([gu, gl], [u, l]), **info)
   p0 = np.einsum('ij,jk,ik->i', V, M0, V)
   if np.all(p0[:npos] <= u) and np.all(p0[npos:] >= l):
     if stats is not None:
       stats['prior_feasible'] = True
-    if not np.allclose(M, M0, rtol=0, atol=1e-12 * np.abs(M0).max()):
+    # (for 'covariance' the reference prior comes from another inversion algorithm than the library's: agreement to 1e-9 relative)
+    if not np.allclose(M, M0, rtol=0, atol=(1e-9 if inst['prior'] == 'covariance' else 1e-12) * np.abs(M0).max()):
       return bad(inst, 'prior-fixpoint', 'the prior satisfies all bounds but max |M - M0| = %g' % np.abs(M - M0).max(), **info)
   # ---- converged-kkt ----
   conv = fr.get('conv')
